@@ -84,6 +84,8 @@ def main():
             except Exception:
                 continue
             a = m.get('author') or {}
+            if not isinstance(a, dict):
+                a = {'summary': a}
             s = a.get('summary') or m.get('summary') or m.get('description') or ''
             if isinstance(s, list):
                 s = ' '.join(s)
